@@ -28,7 +28,7 @@ def fullSide (sd : Side) (bat : List Nat) (content : Bytes) : Side :=
     ((chosen bat (reqBlocks content.length)).foldl (fun b i => b.set i Gen.Disk.bsFree) (newBat bat content))
 
 theorem writeFile_unfold (sd : Side) (bat : List Nat) (content : Bytes) (name ext : Str) (kind flag : Nat)
-    (hb : getBat sd = .ok bat) :
+    (hb : getBat sd = .ok bat) (h40 : isFree (bat.getD 40 0) = false) (h41 : isFree (bat.getD 41 0) = false) :
     writeFile sd content name ext kind flag =
       if (chosen bat (reqBlocks content.length)).length < reqBlocks content.length then
         .raised (.valueError "not.enough.blocks") sd
@@ -38,6 +38,8 @@ theorem writeFile_unfold (sd : Side) (bat : List Nat) (content : Bytes) (name ex
         | .ok none => .raised (.valueError "no.more.space.in.catalog") (fullSide sd bat content) := by
   unfold writeFile
   rw [hb]
+  dsimp only
+  rw [protect_id bat h40 h41]
   rfl
 
 theorem chosen_props (bat : List Nat) (hlen : bat.length = 160) (h40 : isFree (bat.getD 40 0) = false)
@@ -382,7 +384,7 @@ theorem writeFile_inv {sd : Side} {bat : List Nat} {own : Nat → List Nat} (inv
         ∧ (chosen bat (reqBlocks content.length)).length = reqBlocks content.length)
     ∨ (∃ sd' msg, writeFile sd content name ext kind flag = .raised (.valueError msg) sd' ∧ SideInv sd' bat own
         ∧ ∀ j, j < 112 → slotData sd' j = slotData sd j) := by
-  rw [writeFile_unfold sd bat content name ext kind flag inv.hbat]
+  rw [writeFile_unfold sd bat content name ext kind flag inv.hbat inv.not_free40.1 inv.not_free40.2]
   by_cases hfit : (chosen bat (reqBlocks content.length)).length < reqBlocks content.length
   · right
     exact ⟨sd, _, by rw [if_pos hfit], inv, fun _ _ => rfl⟩
